@@ -3574,7 +3574,12 @@ class BoutMesh(Mesh):
             self.fields_to_output.append(name)
             f = MultiLocationArray(self.nx, self.ny)
             self.__dict__[name] = f
-            f.attributes = next(iter(self.regions.values())).__dict__[name].attributes
+            # Copy, so that setting 'bout_type' below does not modify the attributes of
+            # the first region's array (which would make a second call of geometry()
+            # fail the consistency check when the region's array is re-used)
+            f.attributes = dict(
+                next(iter(self.regions.values())).__dict__[name].attributes
+            )
             for region in self.regions.values():
                 f_region = region.__dict__[name]
 
@@ -3615,7 +3620,7 @@ class BoutMesh(Mesh):
             f.centre[...] = float("nan")
             f.xlow[...] = float("nan")
             self.__dict__[name] = f
-            f.attributes = self.y_groups[0][0].__dict__[name].attributes
+            f.attributes = dict(self.y_groups[0][0].__dict__[name].attributes)
             for y_group in self.y_groups:
                 # Get values from first region in each y_group
                 region = y_group[0]
